@@ -6,6 +6,7 @@ import runsum
 from pathsum import ERR, NONE, OK, SOME, St, show_term, strip_sites
 from runsum import is_root
 
+RERUN_ON_CONFIGS = ("dfm", "std")
 LEVEL = "other"
 RULE_TEXT = ("C02-R: on every loop-body path of Interface::run the path variable handed to parse is the root at entry, "
              "root again after every path on which a terminator was consumed (terminated unit, empty message, skipped "
